@@ -1802,8 +1802,18 @@ class UnitQuaternion(Quaternion):
         if not base.isscalar(s):
             # a sequence of interpolation coefficients gives the corresponding
             # sequence of unit quaternions, as the interp method of the pose classes does
-            return UnitQuaternion([self.interp(float(sk), dest=dest, shortest=shortest).vec
-                                   for sk in base.getvector(s)], check=False)
+            s = base.getvector(s)
+            if len(s) > 1:
+                assert len(self) == 1, 'if len(s) > 1, len(X) must == 1'
+                return UnitQuaternion([self.interp(float(sk), dest=dest, shortest=shortest).vec
+                                       for sk in s], check=False)
+            s = float(s[0])
+
+        if len(self) > 1:
+            # one coefficient, several unit quaternions: interpolate each of them,
+            # as the interp method of the pose classes does
+            return UnitQuaternion([q.interp(s, dest=dest, shortest=shortest).vec
+                                   for q in self], check=False)
 
         if dest is not None:
             # 2 quaternion form
